@@ -256,7 +256,10 @@ class WorkerAdapter:
             if kind == 'baseexc':
                 raise TaskBase(j)
             if kind == 'unpicklable':
-                return _Unpicklable()
+                v = _Unpicklable()            # fails to pickle at nesting depth j % 4
+                for lvl in range(j % 4):
+                    v = {'k': [1, v]} if lvl % 2 else [v, 'x']
+                return v
             raise ValueError(kind)
 
     def _on_exit(self, pid, code):
